@@ -123,7 +123,11 @@ def dbn_case(draw, min_vars=1):
         ne = draw(st.integers(1, 2)) if mode == "some" else min(len(rest), draw(st.integers(2, 4)))
         ev_vars = rest[:ne]
     evidence = [[list(v), a[J.idx[v]]] for v in ev_vars]
-    return {"template": t, "T": T, "query": [list(q) for q in query], "evidence": evidence}
+    # the same evidence variables in other states (another assignment of positive probability): asked afterwards on the
+    # same engine object, which must not remember anything of the first question
+    a2 = support[draw(st.integers(0, len(support) - 1))]
+    evidence2 = [[list(v), a2[J.idx[v]]] for v in ev_vars]
+    return {"template": t, "T": T, "query": [list(q) for q in query], "evidence": evidence, "evidence2": evidence2}
 
 
 def build_dbn(t, with_cpds=True, only_slice=None):
@@ -301,6 +305,25 @@ def check_inference(case, out):
             if any(abs(a - b) > 1e-8 for a, b in zip(vals, wv)):
                 out.fail(f"{api}:marginal_mismatch{tag_sfx}{cls_ev}", f"P({q} | {ev}) got {vals} want {wv}; intra={t['intra']} inter={t['inter']} T={T}")
                 break
+    # second question on the same engine: same evidence variables, other states (filtering mode, exact region only)
+    ev2 = {tuple(v): s_ for v, s_ in case.get("evidence2", [])}
+    if ev2 and ev2 != evidence and not _queried_slice_before_later_query(case) and J.prob({v: s_ for v, s_ in ev2.items()}) > 0:
+        out.cls("second_question_other_evidence_states")
+        res = out.call("forward_inference[second_question]", eng.forward_inference, list(query), dict(ev2))
+        out.evals += 1
+        if res is not RAISED and isinstance(res, dict):
+            for q in query:
+                ev = {v: s_ for v, s_ in ev2.items() if v[1] <= q[1]}
+                if q in ev or q not in res:
+                    continue
+                want = J.marginal([q], ev)
+                vals = [float(x) for x in res[q].values.ravel()]
+                z = sum(vals)
+                vals = [x / z for x in vals] if z > 0 else vals
+                wv = [want[frozenset([(q, s_)])] for s_ in range(len(vals))] if len(vals) == len(want) else None
+                if wv is None or any(abs(a_ - b_) > 1e-8 for a_, b_ in zip(vals, wv)):
+                    out.fail("forward_inference[second_question]:marginal_mismatch", f"P({q} | {ev}) got {vals} want {wv} after a first question with evidence {evidence}; intra={t['intra']} inter={t['inter']} T={T}")
+                    break
     out.sample = {"names": names, "intra": t["intra"], "inter": t["inter"], "T": T, "query": case["query"], "evidence": case["evidence"]}
 
 
